@@ -80,6 +80,9 @@ type stack struct {
 	// writePause, if set, is consulted before every write and may return an
 	// idle period (keepalive pings then flow and are exposed to relay faults)
 	writePause func(side string) time.Duration
+	// redialPause: how long the client application waits after its k-th
+	// connection ended before it dials again (nil = immediately).
+	redialPause func(k int) time.Duration
 	// eager: Accept is called again immediately (as gRPC does) and Dial may
 	// be called while a connection is still open
 	eager bool
@@ -217,6 +220,7 @@ func (st *stack) runInstance(sd *stackSide, in *instance) {
 			in.failed = err
 		}
 		sd.mu.Unlock()
+		simrt.Note("%s instance %d failed: %v (written %d/%d read %d/%d)", sd.name, in.k, err, in.written, in.plan, in.read, in.peerTotal)
 	}
 	closeReq := make(chan struct{})
 	checkDone := func() {
@@ -521,6 +525,16 @@ func (st *stack) clientLoop() {
 			}()
 		}
 		st.runInstance(sd, in)
+		if st.redialPause != nil {
+			// application think time between two connections of a session
+			if d := st.redialPause(in.k); d > 0 {
+				select {
+				case <-time.After(d):
+				case <-st.stop:
+					return
+				}
+			}
+		}
 	}
 }
 
